@@ -23,6 +23,8 @@ SNIPPETS = [
     "PROGRAM Lit\nVAR w : WSTRING; s : STRING; n : INT; END_VAR\nLog(\"key=>value\");\nn           := 1;\nLog('k := v, w => x');\nw := \"a := b\";\nlongname_longname := 2;\ns := 'p, q, r, s, t, u, v, w, x, y, z, aa, bb, cc, dd, ee, ff, gg, hh, ii, jj, kk, ll, mm, nn, oo, pp, qq, rr, ss, tt, uu, vv';\nw := \"p, q, r, s, t, u, v, w, x, y, z, aa, bb, cc, dd, ee, ff, gg, hh, ii, jj, kk, ll, mm, nn, oo, pp, qq, rr, ss, tt, uu\";\nEND_PROGRAM\n",
     # commented-out code and pragmas spanning lines, directly below assignments / declarations whose operator sits further right
     "PROGRAM Cm\nVAR\n    counter : INT;\n    (* x : INT; old\n       y : DINT *)\n    x : INT;\nEND_VAR\n    counter := 1;\n    (* x:=2; disabled\n       f(a => 3) *)\n    x := 4;\n    longer_name := 5;\n    {attribute 'k := v'\n     'w => z'}\n    x := 6;\n    /* y:=7; off\n    */\nEND_PROGRAM\n",
+    # initialisers continued on the next line of a VAR block: the first ':' of the continuation lies inside a literal
+    "PROGRAM Ini\nVAR\n  times : ARRAY[0..1] OF TOD :=\n    [TOD#08:30:00, TOD#09:15:00];\n  name : STRING := 'a:b';\n  x : INT;\n  note : STRING :=\n    'k: v';\n  verylongname_for_alignment : DT :=\n    DT#2024-01-01-12:00:00;\nEND_VAR\nx := 1;\nEND_PROGRAM\n",
     "PROGRAM Tm\nVAR\n  start : TOD := TOD#08:30:00;\n  d : DT := DT#2024-01-01-12:00:00;\n  span : TIME := T#1h2m;\n  a,\n  b : INT;\n  verylongvariablename : DINT := 5;\nEND_VAR\nstart := TOD#09:15:00;\nEND_PROGRAM\n",
 ]
 
